@@ -159,6 +159,20 @@ def gen_history(seed, i, maxlen=5):
             replace(g, gen_list(r))                              # first add / new content
         elif k < 0.55:
             ops.append({"op": "add", "group": g, "list": lists[g]})  # identical re-add
+        elif k < 0.65 and len(lists[g]) >= 2:
+            perm = lists[g][:]
+            r.shuffle(perm)
+            replace(g, perm)                                     # the same members in another order (same length on disk)
+        elif k < 0.7:
+            # one character of one member changed (same length on disk)
+            lst = [list(x) for x in lists[g]]
+            j = r.randrange(len(lst))
+            t = lst[j][1]
+            for a, b in (("[*]", "[1]"), ("1*", "2*"), ("1-3", "1-2"), ("0+2", "0+3"), ('"x"', '"y"'), ("yes()", "not()")):
+                if a in t:
+                    lst[j][1] = t.replace(a, b, 1)
+                    break
+            replace(g, [tuple(x) for x in lst])
         elif k < 0.75 and older.get(g):
             replace(g, r.choice(older[g]))                       # back to earlier content (A, B, A)
         elif k < 0.75:
